@@ -221,11 +221,19 @@ let () =
                let m = List.sort compare (List.map string_of_name nl) and i = List.sort compare (parse_names s) in
                if m <> i then mismatch !opno "api" (Printf.sprintf "NULLABLE: implementation {%s}, proved model {%s}" (String.concat "," i) (String.concat "," m))
              | _, _ -> mismatch !opno "api" ("NULLABLE: implementation " ^ res))
+          | "LRS" | "LRL" | "LRC" ->
+            (* table construction proper belongs to C11; here only: the caller's grammar is unchanged *)
+            bump ("op_" ^ opname);
+            if not c08 then begin
+              match rf with
+              | "ok" :: _ -> if field rf "eq" <> Some "t" then mismatch !opno "api" (opname ^ ": the caller's grammar was modified (it differs from an independently built copy after the call)")
+              | _ -> bump "lr_table_not_built"
+            end
           | "PBT" | "LR0" | "LR1" | "LR0K" | "LR1K" ->
             bump ("op_" ^ opname);
             if not c08 then begin
               match rf with
-              | "ok" :: _ -> if field rf "eq" <> Some "t" then mismatch !opno "api" (opname ^ ": the caller's grammar was modified (g.Equal(clone) is false after the call)")
+              | "ok" :: _ -> if field rf "eq" <> Some "t" then mismatch !opno "api" (opname ^ ": the caller's grammar was modified (it differs from an independently built copy after the call)")
               | r0 :: _ -> if r0 <> "PANIC:out-of-names" then mismatch !opno "api" (opname ^ ": " ^ res)
               | [] -> ()
             end
@@ -233,7 +241,7 @@ let () =
           | _ when (match rf with "LARGE" :: _ -> true | _ -> false) ->
             bump "large_outputs_not_compared";
             if not c08 && field rf "eq" <> Some "t" then
-              mismatch !opno "api" (opname ^ ": the receiver was modified (g.Equal(clone) is false after the call)")
+              mismatch !opno "api" (opname ^ ": the receiver was modified (it differs from an independently built copy after the call)")
           | _ ->
             bump ("op_" ^ opname);
             let order = match field rf "order" with Some s -> List.map name_of_string (parse_names s) | None -> [] in
@@ -274,7 +282,7 @@ let () =
                  | _, _ -> bump "language_undecided"
                end else begin
                  if field rf "eq" <> Some "t" then
-                   mismatch !opno "api" (opname ^ ": the receiver was modified (g.Equal(clone) is false after the call)");
+                   mismatch !opno "api" (opname ^ ": the receiver was modified (it differs from an independently built copy after the call)");
                  let v = c_verify ggm in
                  if (field rf "v" = Some "t") <> v then
                    mismatch !opno "fidelity" (Printf.sprintf "%s: Verify() of the implementation says %s, the model's verify says %b" opname
